@@ -32,7 +32,23 @@ def gen_case(rng, abi=False):
     for _ in range(n_items):
         kind = rng.weighted([('struct', 5), ('typedef', 3), ('enum', 3), ('func', 6), ('const', 3),
                              ('global', 2), ('opaque', 2), ('funcptr', 2), ('union', 1),
-                             ('externpy', 0 if abi else 2), ('macro', 2)])
+                             ('externpy', 0 if abi else 2), ('macro', 2), ('anonstruct', 2), ('anonenum', 1)])
+        if kind == 'anonstruct':
+            # typedef of a struct without a tag
+            td = names.new('A_')
+            flds = ' '.join('%s a%d_%s;' % (rng.choice(types), j, rng.choice(WORDS)) for j in range(rng.randint(1, 4)))
+            decls.append('typedef struct { %s } %s;' % (flds, td))
+            types.append(td)
+            continue
+        if kind == 'anonenum':
+            vals = [names.new('Q').upper() for _ in range(rng.randint(1, 4))]
+            if rng.chance(0.5):
+                td = names.new('Z_')
+                decls.append('typedef enum { %s } %s;' % (', '.join(vals), td))
+                types.append(td)
+            else:
+                decls.append('enum { %s };' % ', '.join(vals))
+            continue
         if kind == 'typedef':
             n = names.new('t_')
             decls.append('typedef %s %s;' % (rng.choice(types), n))
@@ -44,7 +60,19 @@ def gen_case(rng, abi=False):
                 ft = rng.choice(types)
                 fn = 'f%d_%s' % (i, rng.choice(WORDS))
                 r = rng.random()
-                if r < 0.15 and ptr_ok:
+                if r < 0.12:
+                    # an unnamed nested struct/union used as the type of a named field
+                    sub = ' '.join('%s n%d_%s;' % (rng.choice(PRIMS), j, rng.choice(WORDS))
+                                   for j in range(rng.randint(1, 3)))
+                    fields.append('%s { %s } %s;' % (rng.choice(['struct', 'struct', 'union']), sub, fn))
+                    continue
+                if r < 0.15 and i > 0:
+                    # C11 anonymous member: its fields are merged into the enclosing aggregate
+                    sub = ' '.join('%s m%d%d_%s;' % (rng.choice(PRIMS), i, j, rng.choice(WORDS))
+                                   for j in range(rng.randint(1, 2)))
+                    fields.append('%s { %s };' % (rng.choice(['struct', 'union']), sub))
+                    continue
+                if r < 0.22 and ptr_ok:
                     fields.append('struct %s *%s;' % (rng.choice(ptr_ok), fn))
                 elif r < 0.3:
                     fields.append('%s %s[%d];' % (ft, fn, rng.randint(1, 9)))
